@@ -35,6 +35,7 @@ def check(ctx):
     fifo(ctx, P, views, iters)
     disarm(ctx, P, views, iters)
     blocked_flag(ctx, P, views, iters)
+    victims_not_blocked(ctx, P, views)
     # a blocked customer keeps its server across a non-pre-emptive shift change as well: busy servers are only marked off duty
     from . import c12
     c12.off_duty(ctx, P, views, iters)
@@ -43,6 +44,29 @@ def check(ctx):
     c09.in_service(ctx, P, iters, only={"block_individual", "release", "finish_service"})
     ctx.assume("only in-repo node classes; configuration flags immutable after __init__ (checked)")
     ctx.assume("PS nodes have an integer capacity (no Schedule)")
+
+
+def victims_not_blocked(ctx, P, views):
+    """a blocked customer has finished its service and holds its server until the destination admits it (Type I blocking).  Priority pre-emption picks its
+    victim among the servers' customers; unless blocked customers are excluded there, a blocked one can be thrown off its server: it stays in the destination's
+    blocked queue with its service dates wiped, and when the destination later pulls it in the run ends in AttributeError (`individual.server.id_number` on
+    False) or, with 'reroute', in ValueError (the customer is no longer at the node the queue entry names).  Decided structurally: somewhere in decide_preempt
+    (helpers read through) the candidates' `is_blocked` must be tested."""
+    ob = ctx.ob("VBLK", "decide_preempt never selects a blocked customer as the victim (is_blocked is tested when the candidates are collected)")
+    for view in views:
+        r = view.resolve("decide_preempt")
+        if r is None:
+            ctx.unrecognised("VBLK: decide_preempt not found in view %s" % view.name)
+            continue
+        cls, fn = r
+        if cls.name != view.name and any(v.name == cls.name for v in views):
+            continue        # inherited unchanged: reported once, at the class that defines it
+        tested = any(isinstance(x, ast.Attribute) and x.attr == "is_blocked" and isinstance(x.ctx, ast.Load) for x in rules.walk(P, view, fn))
+        ob.ok("%s.decide_preempt" % cls.name, "is_blocked tested: %s" % tested)
+        if not tested:
+            ctx.violation(ob, "R6.victim", "%s.decide_preempt" % cls.name, "victims among the servers' customers", "victim-may-be-blocked",
+                          "the pre-emption victim is chosen among all customers holding a server, blocked ones included: a blocked customer that is pre-empted stays in its "
+                          "destination's blocked queue without a server and with its dates wiped -- the run later ends in AttributeError / ValueError", loc(fn))
 
 
 def block_keeps_server(ctx, P, views, iters):
